@@ -11,6 +11,9 @@ enum Bind {
     Param,
     Rest,
     Define,
+    /// not bound by this level; the level has an internal procedure definition whose formal has this name
+    /// (a sibling scope that must not capture the level's own references to the name)
+    SiblingFormal,
 }
 #[derive(Clone, Copy, PartialEq, Debug)]
 enum SetWhen {
@@ -26,6 +29,8 @@ enum Mode {
     /// called twice; both results are kept and driven after the second activation has run
     TwiceKeep,
     Loop,
+    /// like Loop, and every iteration of the loop binds a fresh `c` that the closure created in it sees
+    LoopBind,
 }
 
 #[derive(Clone, Copy, Debug)]
@@ -73,10 +78,12 @@ impl Level {
 /// All levels with cost <= max (used as the per-level alphabet), cheapest first.
 fn level_alphabet(max: u32, last: bool) -> Vec<Level> {
     let binds = [Bind::None, Bind::Param, Bind::Rest, Bind::Define];
+    // the sibling-formal distractor is enumerated for the first name only (the three names are interchangeable)
+    let binds0 = [Bind::None, Bind::Param, Bind::Rest, Bind::Define, Bind::SiblingFormal];
     let sets = [SetWhen::Never, SetWhen::Before, SetWhen::After];
-    let modes: &[Mode] = if last { &[Mode::InPlace] } else { &[Mode::InPlace, Mode::Returned, Mode::Twice, Mode::TwiceKeep, Mode::Loop] };
+    let modes: &[Mode] = if last { &[Mode::InPlace] } else { &[Mode::InPlace, Mode::Returned, Mode::Twice, Mode::TwiceKeep, Mode::Loop, Mode::LoopBind] };
     let mut out = vec![];
-    for b0 in binds {
+    for b0 in binds0 {
         for b1 in binds {
             for b2 in binds {
                 let bind = [b0, b1, b2];
@@ -117,7 +124,13 @@ fn sets_text(l: &Level, when: SetWhen) -> String {
 fn level_text(levels: &[Level], idx: usize) -> String {
     let l = &levels[idx];
     let lv = idx + 1;
-    let defines: String = (0..3).filter(|i| l.bind[*i] == Bind::Define).map(|i| format!("(define {} (nx!)) ", NAMES[i])).collect();
+    let defines: String = (0..3)
+        .map(|i| match l.bind[i] {
+            Bind::Define => format!("(define {} (nx!)) ", NAMES[i]),
+            Bind::SiblingFormal => format!("(define (hlp{} {}) (list {})) ", lv, NAMES[i], NAMES[i]),
+            _ => String::new(),
+        })
+        .collect();
     let before = sets_text(l, SetWhen::Before);
     let after = sets_text(l, SetWhen::After);
     let head = format!("(lambda {} {}(lg! {} 0 a b c) {}", l.params(), defines, lv, before);
@@ -141,6 +154,13 @@ fn level_text(levels: &[Level], idx: usize) -> String {
             "((lambda (inner) {}(lg! {} 1 a b c) ((lambda (r1) (lg! {} 2 a b c) ((lambda (r2) (lg! {} 3 a b c) (list r1 r2)) {})) {})) {})",
             after, lv, lv, lv, call, call, inner
         ),
+        Mode::LoopBind => {
+            let n = levels[idx + 1].nargs();
+            format!(
+                "(let lp ((i 0) (fs '()) (c (nx!))) (if (< i 3) (lp (+ i 1) (cons {} fs) (nx!)) ((lambda () {}(lg! {} 1 a b c) ((lambda (r1) ((lambda (r2) ((lambda (r3) (lg! {} 2 a b c) r3) ((car (cddr fs)) {}))) ((cadr fs) {}))) ((car fs) {}))))))",
+                inner, after, lv, lv, args_text(n), args_text(n), args_text(n)
+            )
+        }
         Mode::Loop => {
             let n = levels[idx + 1].nargs();
             format!(
@@ -337,7 +357,7 @@ pub fn run(ctx: &Ctx) -> i32 {
     rep.transitions = Some(acc.evals * 2);
     rep.traces_validated = Some(acc.nontrivial);
     rep.rule = format!(
-        "Every scope skeleton of 1..4 nested procedures over names a b c (all three also global) with total cost <= {} (quick tier: <= cost-1 for the 4-deep nests) where a level chooses, per name, its binding (none / parameter / rest parameter / internal define), a set! (never / before the inner closure is created / after it) and how the inner closure is used (called in place / returned as a thunk and called after its creator returned / called twice / called twice with both results kept and driven only after the second activation / created three times in a named-let loop and all three called); cost = number of non-default choices. Every write stores a fresh value of a global counter and every level logs (level phase a b c) at entry, after closure creation and after the inner call; the session's last form returns the log and the globals. The log must equal the reference machine's (environment = persistent map name -> location, fresh location per activation). Non-trivial = agreement on all forms; skeletons are distinct by construction.",
+        "Every scope skeleton of 1..4 nested procedures over names a b c (all three also global) with total cost <= {} (quick tier: <= cost-1 for the 4-deep nests) where a level chooses, per name, its binding (none / parameter / rest parameter / internal define / - first name only - none, with a sibling internal procedure whose formal has that name), a set! (never / before the inner closure is created / after it) and how the inner closure is used (called in place / returned as a thunk and called after its creator returned / called twice / called twice with both results kept and driven only after the second activation / created three times in a named-let loop and all three called / the same with a fresh binding of c per iteration); cost = number of non-default choices. Every write stores a fresh value of a global counter and every level logs (level phase a b c) at entry, after closure creation and after the inner call; the session's last form returns the log and the globals. The log must equal the reference machine's (environment = persistent map name -> location, fresh location per activation). Non-trivial = agreement on all forms; skeletons are distinct by construction.",
         b
     );
     rep.extra("cost_bound", json!(b));
